@@ -19,6 +19,7 @@ from dsim.stackmodel import StackModel
 
 ID = "C16"
 LEVEL = "exploration"
+GC_CONTROL = True
 RULE = ("one case = one generated command history (5-40 steps over assert, assert-soft with ids/weights, "
         "push/pop n in 0..2 (legal), reset-assertions, check-sat, objectives, is_sat/is_valid/is_unsat, "
         "solve under assumptions, reads of .assertions) executed on the real tracking solver, on SmtLibScript "
@@ -129,9 +130,16 @@ def gen_plan(tape, cfg):
             ops.append({"op": "oneshot_fails", "q": tape.choice(["is_sat", "is_valid", "is_unsat"], "fail.q"),
                         "how": tape.choice(["convert", "unknown"], "fail.how"),
                         "f": bp.gen_term(tape, bp.BOOL, 1, ctx)})
-    return {"symbols": symbols, "ops": ops,
+    plan = {"symbols": symbols, "ops": ops,
             "assumption_style": tape.choice(["z3", "native"], "assumption_style"),
             "policy": tape.choice(["uniform", "first"], "policy")}
+    if tape.chance(1, 40, "backend.portfolio"):
+        # a second concrete tracking solver: the real Portfolio (its proxies differ: _reset_assertions
+        # is not wrapped in clear_pending_pop) over two simulated member processes
+        plan["backend"] = "portfolio"
+        plan["ops"] = [o for o in ops if o["op"] not in ("solve_assuming", "oneshot_fails")][:14]
+        plan["delays"] = [tape.choice([0.0, 0.5, 0.5, 1.0], "pf.delay") for _ in range(2)]
+    return plan
 
 
 def shrink_plan(plan):
@@ -202,7 +210,11 @@ def execute(plan, tape):
     def probe(n):
         probes[n] = probes.get(n, 0) + 1
 
-    nontrivial = _solver_half(plan, ops, symbols, tape, probe, trace)
+    if plan.get("backend") == "portfolio":
+        nontrivial = _portfolio_half(plan, ops, symbols, tape, probe, trace)
+        probe("portfolio_backend")
+    else:
+        nontrivial = _solver_half(plan, ops, symbols, tape, probe, trace)
     nt2 = _script_half(plan, ops, symbols, probe, trace)
     return {"digest": digest_of(trace), "nontrivial": bool(nontrivial or nt2), "probes": probes,
             "faults": {}, "sim_time": 0.0, "steps": len(ops),
@@ -344,6 +356,105 @@ def _solver_half(plan, ops, symbols, tape, probe, trace):
     if solver.b_illegal:
         raise Violation("C16:solver:backend-illegal", "back end saw %s" % solver.b_illegal[:3])
     return nontrivial
+
+
+def _portfolio_half(plan, ops, symbols, tape, probe, trace):
+    """the same history on the real Portfolio (members: real SmtLibSolver processes over
+    the reference solver, simulated by the kernel); observations: .assertions and verdicts"""
+    from pysmt.logics import QF_BV
+    from pysmt.solvers.portfolio import Portfolio
+    from dsim.kernel import Kernel, SimDeadlock
+    from dsim.proc import World, Seams as ProcSeams
+    from dsim.mp import Net, Seams as MpSeams
+    env = _fresh_env()
+    mgr = env.formula_manager
+    for n, s_ in symbols.items():
+        mgr.Symbol(n, bp.to_pysmt_type(s_, env))
+    kernel = Kernel(tape, max_steps=60000, max_time=1e5)
+    world = World(kernel, tape)
+    net = Net(kernel, tape)
+    names = []
+    for m, d in enumerate(plan.get("delays", [0.0, 0.5])):
+        world.profiles["m%d" % m] = {"check_delay": d, "model_policy": "first"}
+        env.factory.add_generic_solver("m%d" % m, ["ref", "m%d" % m], [QF_BV])
+        names.append("m%d" % m)
+    model = StackModel()
+    tok_f, tok_bp = {}, {}
+    state = {"nontrivial": False}
+
+    def truth(extra=()):
+        fs = [tok_bp[i] for i in model.live_assertions()] + list(extra)
+        syms = {}
+        for f in fs:
+            bp.symbols_of(f, syms)
+        return bp.satisfiable(fs, syms)
+
+    def run():
+        pf = api("Portfolio()", Portfolio, names, environment=env, logic=QF_BV, incremental=True)
+        pending = False
+
+        def observe(where):
+            got = api("portfolio.assertions", lambda: list(pf.assertions))
+            want = [tok_f[i] for i in model.live_assertions()]
+            if len(got) != len(want) or any(g is not w for g, w in zip(got, want)):
+                raise Violation("C16:portfolio:assertions-mismatch",
+                                "after %s: portfolio.assertions has %d items %s, model has %d %s" %
+                                (where, len(got), [str(g) for g in got][:6], len(want), [str(w) for w in want][:6]))
+        for i, o in enumerate(ops):
+            k = o["op"]
+            if k in SCRIPT_ONLY:
+                continue
+            if pending and k in ("push", "pop", "reset", "assert"):
+                state["nontrivial"] = True
+                probe("portfolio_pending_pop_before_" + k)
+            if k == "assert":
+                f = bp.build(o["f"], env)
+                tok_f[i], tok_bp[i] = f, o["f"]
+                api("portfolio.add_assertion", pf.add_assertion, f)
+                model.assert_(i)
+            elif k == "push":
+                api("portfolio.push", pf.push, o["n"])
+                model.push(o["n"])
+            elif k == "pop":
+                api("portfolio.pop", pf.pop, o["n"])
+                model.pop(o["n"])
+            elif k == "reset":
+                api("portfolio.reset_assertions", pf.reset_assertions)
+                model.reset_assertions()
+            elif k == "check":
+                got = api("portfolio.solve", pf.solve)
+                if got != truth():
+                    raise Violation("C16:portfolio:verdict", "solve() = %s, live assertions are %s" %
+                                    (got, "sat" if truth() else "unsat"))
+            elif k in ("is_sat", "is_valid", "is_unsat"):
+                f = bp.build(o["f"], env)
+                got = api("portfolio." + k, getattr(pf, k), f)
+                q = o["f"] if k != "is_valid" else ["not", o["f"]]
+                sat = truth([q])
+                if got != (sat if k == "is_sat" else not sat):
+                    raise Violation("C16:portfolio:oneshot-verdict", "%s returned %s" % (k, got))
+                pending = True
+                if tape.chance(1, 3, "observe.after.oneshot"):
+                    observe("%s@%d" % (k, i))
+                    pending = False
+                continue
+            elif k == "read":
+                observe("read@%d" % i)
+                pending = False
+                continue
+            pending = False
+            if tape.chance(2, 3, "observe.after"):
+                observe("%s@%d" % (k, i))
+            trace.append((k, o.get("n"), len(model.live_assertions())))
+        observe("end")
+        api("portfolio.exit", pf.exit)
+
+    with ProcSeams(world), MpSeams(net):
+        try:
+            kernel.run_main(run)
+        except SimDeadlock as d:
+            raise Violation("C16:portfolio:blocks", "a portfolio call never returned: %s %s" % (d.reason, d.detail[:150]))
+    return state["nontrivial"]
 
 
 def _script_half(plan, ops, symbols, probe, trace):
